@@ -72,6 +72,16 @@ def specs(tier):
                 yield spec
 
 
+    # e-mail provider and website host lists (two separate variables E and W, used by PRINCE structures and hand-written grammars)
+    for term in TERMINALS[:2]:
+        ew = dict(term)
+        ew['E'] = [('gmail.com', .5), ('aol.com', .3), ('web.de', .2)]
+        ew['W'] = [('site.com', .6), ('foo.org', .25), ('x.net', .15)]
+        for gr in ([('E', .5), ('D1', .3), ('W', .2)], [('A1E', .6), ('W', .4)], [('WE', 1.0)], [('W', .5), ('E', .5)]):
+            spec = dict(ew)
+            spec['grammar'] = gr
+            spec['prince'] = gr
+            yield spec
     # Markov levels whose probability does not fall with the level number (the trainer lists them by probability: 1, 3, 2, 4)
     for term in TERMINALS[:2]:
         for gr in ([('M', 1.0)], [('M', .5), ('D1', .5)], [('A1D1', .6), ('M', .4)]):
